@@ -307,6 +307,7 @@ package bus
 //@   encoder out
 //@   loop 1:
 //@     invariant out.len >= old(out.len) && (forall j int {out.data[j]} :: j < old(out.len) ==> out.data[j] == old(out.data[j]))
+//@     invariant (out.wfailed ==> old(out.wfailed)) && (old(out.wfailed) ==> out.wfailed)
 
 // wrapAuthenticate: the only place that calls Authenticate; the channel's state changes only as
 // Authenticate's contract allows (for some user/token pair decoded from the request).
